@@ -516,6 +516,221 @@ def run_hopkins(case, seed, R):
 
 
 # ---------------------------------------------------------------------------------------------
+# sequence entry points against the definitions (not against the scalar routines: that relation is C08)
+
+def seq_lists(H):
+    """Structurally complete alphabet of ascending order lists: (class, list)."""
+    raw = [('from0', [0]), ('from0', [0, 1]), ('from0', [0, 1, 2]), ('from0', list(range(6))), ('from0', list(range(H + 1))),
+           ('from1', [1]), ('from1', [1, 2]), ('from1', [1, 2, 3]), ('from2', [2]), ('from2', [2, 3, 4]),
+           ('gapped', [1, 3, 6]), ('gapped', [2, 5, 9]), ('gapped', [0, 4]), ('gapped', [0, 2]), ('gapped', [0, H]), ('gapped', [5, H]),
+           ('single', [3]), ('single', [H - 1]), ('single', [H])]
+    out, seen = [], set()
+    for cls, ns in raw:
+        if max(ns) <= H and tuple(ns) not in seen:
+            seen.add(tuple(ns))
+            out.append((cls, ns))
+    return out
+
+
+SEQ1 = {
+    # entry point: (impl(param) -> f(ns, x), exact ref(param) -> g(n, Fraction), point-set kind, bound key)
+    'jacobi_seq': (lambda p: (lambda ns, x: pp.jacobi_seq(ns, p[0], p[1], x)), lambda p: (lambda n, x: rp.jacobi(n, F(p[0]), F(p[1]), x)), 'I', 'N'),
+    'legendre_seq': (lambda p: pp.legendre_seq, lambda p: rp.legendre, 'I', 'N'),
+    'cheby1_seq': (lambda p: pp.cheby1_seq, lambda p: rp.cheby1, 'I', 'N'),
+    'cheby2_seq': (lambda p: pp.cheby2_seq, lambda p: rp.cheby2, 'I', 'N'),
+    'cheby3_seq': (lambda p: pp.cheby3_seq, lambda p: rp.cheby3, 'I', 'N'),
+    'cheby4_seq': (lambda p: pp.cheby4_seq, lambda p: rp.cheby4, 'I', 'N'),
+    'hermite_He_seq': (lambda p: pp.hermite_He_seq, lambda p: rp.hermite_He, 'H', 'N'),
+    'hermite_H_seq': (lambda p: pp.hermite_H_seq, lambda p: rp.hermite_H, 'H', 'N'),
+    'laguerre_seq': (lambda p: (lambda ns, x: pp.laguerre_seq(ns, p[0], x)), lambda p: (lambda n, x: rp.laguerre(n, F(p[0]), x)), 'L', 'N'),
+    'dickson1_seq': (lambda p: (lambda ns, x: pp.dickson1_seq(ns, p[0], x)), lambda p: (lambda n, x: rp.dickson1(n, F(p[0]), x)), 'D', 'N'),
+    'dickson2_seq': (lambda p: (lambda ns, x: pp.dickson2_seq(ns, p[0], x)), lambda p: (lambda n, x: rp.dickson2(n, F(p[0]), x)), 'D', 'N'),
+    'Qcon_seq': (lambda p: pp.Qcon_seq, lambda p: rp.qcon, 'U', 'NQ'),
+    'Qbfs_seq': (lambda p: pp.Qbfs_seq, None, 'U', 'NQ'),
+}
+SEQ1_PARAMS = {'jacobi_seq': [[-0.5, 0.5], [-0.5, -0.5], [2.5, 7.25]], 'laguerre_seq': [[0], [0.5], [3.7]],
+               'dickson1_seq': [[-1], [0], [0.5]], 'dickson2_seq': [[-1], [0], [0.5]]}
+
+
+def _seq_items(R, out, k, shape, sig, what):
+    """The k entries of a sequence result (ndarray or list of arrays), each validated against `shape`; None on failure."""
+    if out is FAILED:
+        return None
+    try:
+        items = list(out)
+    except Exception as e:   # noqa
+        R.violation(sig, f'{what}: result is not a sequence ({type(e).__name__}: {e})')
+        return None
+    if len(items) != k:
+        R.violation(sig, f'{what}: {len(items)} entries returned for {k} requested orders')
+        return None
+    return items
+
+
+def _seq_compare(R, fn, cls, form, out, orders, vals, conds, K, what):
+    """out[i] must equal vals[i] within K (n_i+1) eps conds[i]; orders[i] is the recurrence depth n_i."""
+    sig = f'{fn}:{cls}:{form}'
+    items = _seq_items(R, out, len(orders), vals[0].shape, sig, what)
+    if items is None:
+        return
+    for i, n in enumerate(orders):
+        _close(R, items[i], vals[i], conds[i], n, EPS64, K[i] if isinstance(K, list) else K, sig, f'{what}, entry {i}')
+
+
+def run_seq1(case, seed, R):
+    fn, p, H = case['fn'], case['param'], case['H']
+    mk_impl, mk_ref, kind, _ = SEQ1[fn]
+    impl = mk_impl(p)
+    P = pts(kind, seed)
+    fr = [rp.frac(v) for v in P]
+    if fn == 'Qbfs_seq':
+        cs, h = rp.qbfs_table(H)
+        pre = np.array([float(x * x * (1 - x * x)) for x in fr])
+        q = np.array([[float(rp.horner(cs[n][:n + 1], x * x)) for x in fr] for n in range(H + 1)]) / np.sqrt([float(v) for v in h])[:, None]
+        T, M = pre * q, pre * np.maximum(1.0, np.abs(q))
+    else:
+        ref = mk_ref(p)
+        T = np.array([[float(ref(n, x)) for x in fr] for n in range(H + 1)])
+        M = np.abs(T)
+    run = np.maximum.accumulate(M, axis=0)
+    x1 = np.array(P)
+    forms = [('1d', x1, (len(P),)), ('2d', x1.reshape(2, -1), (2, len(P) // 2))]
+    for cls, ns in seq_lists(H):
+        spellings = [('list', list(ns))]
+        if ns in ([0, 1, 2, 3, 4, 5], [2, 5, 9]):
+            spellings.append(('ndarray', np.array(ns)))
+        for sp, arg in spellings:
+            for form, x, shape in forms:
+                out = R.call(impl, arg, x.copy(), sig=f'{fn}:{cls}:{form}:exception')
+                _seq_compare(R, fn, cls if sp == 'list' else cls + ',ns=ndarray', form, out, ns,
+                             [T[n].reshape(shape) for n in ns], [run[n].reshape(shape) for n in ns], K_DEFAULT,
+                             f'{fn}({ns}{"" if not p else ", " + str(p)}) on {form} array')
+    R.nontrivial()
+    R.outcome(fn)
+
+
+def run_seq_zernike(case, seed, R):
+    norm, N = case['norm'], case['N']
+    P, Tt = pts('U', seed), PTS_T
+    fr = [rp.frac(v) for v in P]
+    lists = [('ansi', [(n, m) for n in range(5) for m in range(-n, n + 1, 2)]),
+             ('unsorted', [(4, 0), (2, -2), (3, 1), (1, 1), (6, 2), (2, 2), (5, -3), (0, 0), (1, -1)]),
+             ('repeated-m', [(2, 2), (6, 2), (10, -2)]), ('repeated-m', [(3, -1), (9, 1), (1, 1)]), ('repeated-m', [(4, 0), (0, 0), (8, 0)]),
+             ('single', [(0, 0)]), ('single', [(1, -1)]), ('single', [(7, 3)]), ('single', [(N, 0)]), ('single', [(N, -N)]), ('single', [(N - 1, 3)]),
+             ('mixed-sign', [(3, 3), (3, -3), (5, -1), (5, 1)])]
+    r1, t1 = np.array(P), np.array(Tt)
+    forms = [('1d', r1, t1, (len(P),)), ('2d', r1.reshape(2, -1), t1.reshape(2, -1), (2, len(P) // 2))]
+    fam = f'zernike_nm_seq[{"norm" if norm else "raw"}]'
+    rad_cache = {}
+
+    def rad(n, am):
+        if (n, am) not in rad_cache:
+            v = np.array([float(rp.zernike_radial(n, am, x)) for x in fr])
+            rad_cache[(n, am)] = v * math.sqrt(rp.zernike_norm2(n, am)) if norm else v
+        return rad_cache[(n, am)]
+    for cls, nms in lists:
+        vals, conds, depth = [], [], []
+        for n, m in nms:
+            am = abs(m)
+            trig = np.array([math.cos(m * t) if m >= 0 else math.sin(am * t) for t in Tt])
+            vals.append(rad(n, am) * trig)
+            conds.append(np.max([np.abs(rad(k, am)) for k in range(am, n + 1, 2)], axis=0))
+            depth.append((n - am) // 2)
+        for form, r, t, shape in forms:
+            out = R.call(pp.zernike_nm_seq, [tuple(nm) for nm in nms], r.copy(), t.copy(), norm=norm, sig=f'{fam}:{cls}:{form}:exception')
+            _seq_compare(R, fam, cls, form, out, depth, [v.reshape(shape) for v in vals], [c.reshape(shape) for c in conds], K_DEFAULT,
+                         f'zernike_nm_seq({nms}, norm={norm}) on {form} arrays')
+    R.nontrivial()
+    R.outcome('zernike_nm_seq')
+
+
+def run_seq_q2d(case, seed, R):
+    N, M = case['N'], case['M']
+    P, Tt = pts('U', seed), PTS_T
+    fr = [rp.frac(v) for v in P]
+    lists = [('all', [(n, m) for m in (0, 1, -1, 2, -2, 3) for n in range(4)]),
+             ('unsorted', [(3, 2), (0, 0), (1, -2), (2, 1), (0, 3), (4, -1), (2, 0), (0, 2), (5, 1)]),
+             ('repeated-m', [(0, 2), (2, 2), (N, -2)]), ('repeated-m', [(1, -1), (4, 1), (N, 1)]), ('repeated-m', [(0, 0), (3, 0), (N, 0)]),
+             ('single', [(0, 0)]), ('single', [(0, 1)]), ('single', [(2, -1)]), ('single', [(N, 0)]), ('single', [(N, M)]), ('single', [(N, -M)]), ('single', [(0, -M)]),
+             ('mixed-sign', [(1, 3), (1, -3), (2, -1), (2, 1)]), ('sine-only', [(1, -2), (3, -2)]), ('cosine-only', [(1, 2), (3, 2)])]
+    r1, t1 = np.array(P), np.array(Tt)
+    forms = [('1d', r1, t1, (len(P),)), ('2d', r1.reshape(2, -1), t1.reshape(2, -1), (2, len(P) // 2))]
+    tabs = {}
+
+    def radial(n, am):
+        """values and running-max magnitudes of the radial factor of order n, azimuthal order am."""
+        if am not in tabs:
+            if am == 0:
+                cs, h = rp.qbfs_table(N)
+                pre = np.array([float(x * x * (1 - x * x)) for x in fr])
+            else:
+                cs, h = rp.q2d_table(am, N)
+                pre = np.array([float(x ** am) for x in fr])
+            q = np.array([[float(rp.horner(cs[k][:k + 1], x * x)) for x in fr] for k in range(N + 1)]) / np.sqrt([float(v) for v in h])[:, None]
+            tabs[am] = (pre * q, np.maximum.accumulate(pre * np.maximum(1.0, np.abs(q)), axis=0))
+        return tabs[am][0][n], tabs[am][1][n]
+    for cls, nms in lists:
+        vals, conds, depth = [], [], []
+        for n, m in nms:
+            am = abs(m)
+            trig = np.array([math.cos(m * t) if m >= 0 else math.sin(am * t) for t in Tt])
+            v, c = radial(n, am)
+            vals.append(v * trig)
+            conds.append(c)
+            depth.append(n)
+        for form, r, t, shape in forms:
+            out = R.call(pp.Q2d_seq, [tuple(nm) for nm in nms], r.copy(), t.copy(), sig=f'Q2d_seq:{cls}:{form}:exception')
+            _seq_compare(R, 'Q2d_seq', cls, form, out, depth, [v.reshape(shape) for v in vals], [c.reshape(shape) for c in conds], K_DEFAULT,
+                         f'Q2d_seq({nms}) on {form} arrays')
+    R.nontrivial()
+    R.outcome('Q2d_seq')
+
+
+def run_seq_xy(case, seed, R):
+    X, Y = pts('X', seed), pts('Y', seed)
+    fx, fy = [rp.frac(v) for v in X], [rp.frac(v) for v in Y]
+    lists = [('zero-exponents', [(0, 0)]), ('zero-exponents', [(1, 0), (0, 1)]), ('zero-exponents', [(0, 5)]), ('zero-exponents', [(4, 0)]),
+             ('triangle', [(d - k, k) for d in range(4) for k in range(d + 1)]),
+             ('unsorted', [(3, 2), (0, 1), (2, 0), (0, 0), (1, 1), (6, 6)]), ('single', [(6, 6)]), ('single', [(2, 3)]), ('no-zero', [(1, 1), (2, 1), (1, 3)])]
+    xv, yv = np.array(X), np.array(Y[:7])
+    Xg, Yg = np.meshgrid(xv, yv)
+    for cls, mns in lists:
+        pt = [np.array([float(x ** m * y ** n) for x, y in zip(fx, fy)]) for m, n in mns]
+        gr = [np.array([[float(x ** m * y ** n) for x in fx] for y in fy[:7]]) for m, n in mns]
+        Ks = [8 * (m + n + 1) for m, n in mns]
+        zero = [0] * len(mns)
+        for form, x, y, cg, vals in (('scattered-1d', np.array(X), np.array(Y), False, pt),
+                                     ('scattered-2d', np.array(X).reshape(2, -1), np.array(Y).reshape(2, -1), False, [v.reshape(2, -1) for v in pt]),
+                                     ('grid,cartesian=True', Xg, Yg, True, gr), ('grid,cartesian=False', Xg, Yg, False, gr)):
+            out = R.call(pp.xy_seq, [tuple(mn) for mn in mns], x.copy(), y.copy(), cartesian_grid=cg, sig=f'xy_seq:{cls}:{form}:exception')
+            sig = f'xy_seq:{cls}:{form}'
+            items = _seq_items(R, out, len(mns), None, sig, f'xy_seq({mns})')
+            if items is None:
+                continue
+            for i in range(len(mns)):
+                got = items[i]
+                try:    # a separable result may come back un-broadcast (row x column); broadcasting is part of the documented contract
+                    got = np.broadcast_to(np.asarray(got), vals[i].shape) if np.ndim(got) == np.ndim(vals[i]) else got
+                except Exception:   # noqa
+                    pass
+                _close(R, got, vals[i], np.abs(vals[i]), zero[i], EPS64, Ks[i], sig, f'xy_seq({mns}) entry {i} ({form})')
+    R.nontrivial()
+    R.outcome('xy_seq')
+
+
+def run_seq(case, seed, R):
+    fn = case['fn']
+    if fn == 'zernike_nm_seq':
+        run_seq_zernike(case, seed, R)
+    elif fn == 'Q2d_seq':
+        run_seq_q2d(case, seed, R)
+    elif fn == 'xy_seq':
+        run_seq_xy(case, seed, R)
+    else:
+        run_seq1(case, seed, R)
+
+
+# ---------------------------------------------------------------------------------------------
 # history: cold == warm, bit for bit
 
 XH = np.array(_FIXED['I'][:8])
@@ -658,6 +873,12 @@ def plan(tier, seed):
     q2_cases = [{'am': am, 'N': N2} for am in range(M2 + 1)]
     xy_cases = [{'m': m, 'n': n} for m in range(7) for n in range(7)]
     hop_cases = [{'a': a, 'b': b, 'c': c} for a in range(-4, 5) for b in range(5) for c in range(5)]
+    seq_cases = []
+    for fn, (_, _, _, bk) in SEQ1.items():
+        for p in SEQ1_PARAMS.get(fn, [[]]):
+            seq_cases.append({'fn': fn, 'param': p, 'H': bounds[bk]})
+    seq_cases += [{'fn': 'zernike_nm_seq', 'norm': True, 'N': NZ}, {'fn': 'zernike_nm_seq', 'norm': False, 'N': NZ},
+                  {'fn': 'Q2d_seq', 'N': N2, 'M': M2}, {'fn': 'xy_seq'}]
     # collision alphabet for the pair histories: same order / other parameter, int vs float spelling, families sharing a cache
     nn = [2, 3, 5, N]
     alpha = []
@@ -702,6 +923,13 @@ def plan(tier, seed):
                   'and separable axis vectors; oracle x^m y^n exact', reset=reset_poly_caches),
         ScopeUnit('hopkins', hop_cases, run_hopkins,
                   'every (a,b,c) in [-4..4] x [0..4]^2, all input forms; oracle cos(a t) | sin(|a| t) times r^b H^c exact', reset=reset_poly_caches),
+        ScopeUnit('seq_definition', seq_cases, run_seq,
+                  f'every value-returning *_seq entry point (jacobi, legendre, cheby1-4, hermite_He/H, laguerre, dickson1/2, Qbfs, Qcon: shape parameters '
+                  f'{SEQ1_PARAMS}; zernike_nm_seq norm True/False, Q2d_seq, xy_seq) against the exact-rational definitions (never against the scalar routine) for a '
+                  f'structurally complete alphabet of order lists: contiguous from 0 / 1 / 2, gapped ([1,3,6], [2,5,9], [0,4], [0,2], [0,H], [5,H]), singletons of low and high '
+                  f'order (H = {N}; Q: {NQ}), python list and ndarray spelling; two-index families: complete low-order sets, unsorted lists, repeated |m|, mixed sign of m, '
+                  'sine-only / cosine-only, zero exponents; coordinates as 1-D and 2-D arrays (xy_seq: scattered points and a genuine meshgrid, cartesian_grid True/False); '
+                  'same tolerance policy as the pointwise units', reset=reset_poly_caches, chunk=1),
         ScopeUnit('cache_pairs', pair_cases, run_cache_pair,
                   f'history of length 2 over a collision alphabet of {len(alpha)} configurations (same order / other alpha or beta, int vs float spelling, families sharing '
                   'the Jacobi / Q caches): EVERY ordered pair (first, second): second evaluated after first must be bit-identical to second evaluated cold, and the array '
